@@ -130,6 +130,7 @@ func C07(ctx *core.Ctx, r *core.Report) {
 	c07TargetBeforeUse(ctx, r)
 	c07EditBaseIsRequestBase(ctx, r)
 	c07AlternativesFlushed(ctx, r)
+	c07ConstraintsKeepNoTally(ctx, r)
 	c07LeadingGroupKept(ctx, r)
 	r.Count("instances:append-aliasing(found)", appendAliasing(ctx, r, scopeFuncs(ctx, "node")))
 	r.Count("instances:ineffective-break(found)", ineffectiveBreak(ctx, r, "node"))
